@@ -19,7 +19,9 @@ PROPS = {
         "trusted_base": ["pipeline handlers transcribed as thread programs in Model/Pipeline.lean"],
     },
     "C02": {
-        "theorems": thms(P + "C02", ["C02_decrypt_is_spec", "C02_mic_is_spec", "C14_involution", "C14_only_payload"]),
+        "theorems": {**thms(P + "C02", ["C02_decrypt_is_spec", "C02_mic_is_spec", "C14_involution", "C14_only_payload"]),
+                     "LospanVerif.Props.C02Recover": ["LospanVerif.Props.C02.C02_accept_and_recover", "LospanVerif.Props.C02.crypt_crypt", "LospanVerif.Props.C02.unmarshal_mtype"],
+                     **thms(P + "C12Enc", ["C12_marshal_is_layout"])},
         "ties": thms(T + "Protocol", ["tie_minimumMessageSize", "tie_mtypes", "tie_devAddrMasks"]),
         "engines": ["uplink", "phyenc", "pipeseq"],
         "assumptions": ["AES is a parameter of the theorems"],
@@ -176,9 +178,9 @@ MANIFEST_TEXT = {
         "technique": "Lean 4 proof (decision logic stated outright) + regenerated handler skeleton tie + state-by-state correspondence on the real pipeline",
     },
     "C02": {
-        "level": "Lean theorems for every block function: the library's payload cipher = LoRaWAN counter-mode spec (C02_decrypt_is_spec), its MIC = spec MIC built on RFC 4493 (via C14), cipher involution. Acceptance and exact recovery of frames built by the Lean LoRaWAN device: engine uplink (every length 0..242, every port, both types, arbitrary FOpts, top-bit addresses) and engine pipeseq (inbox payload, gateway and radio attribution); library-encoded frames = spec frames byte for byte: engine phyenc.",
-        "note": "the end-to-end accept-and-recover statement and encode=spec are decided by correspondence against the Lean spec device, not yet theorems",
-        "technique": "Lean 4 proof (model = spec for cipher and MIC) + differential correspondence against an executable Lean LoRaWAN device",
+        "level": "Lean theorems for every block cipher E with 16-octet blocks, all keys, addresses, counters, ports, flags, FOpts octets and payloads: a frame a conformant device builds for an application port (Spec.Lorawan.buildFrame: FRMPayload encrypted in counter mode per 4.3.3, MIC per 4.4), once the library's decoder has accepted it, verifies under the NwkSKey over exactly the received octets and decrypts to exactly the device's plaintext with the device's address, counter and port (C02_accept_and_recover); the library's payload cipher and MIC are the specification's (C02_decrypt_is_spec, C02_mic_is_spec via C14_eq_rfc4493); the octets the library encodes are the specification's layout (C12_marshal_is_layout). That the decoder does accept every such frame (all lengths 0..242, every port and flag combination, FOpts of known and unknown identifiers) and that the pipeline hands exactly the plaintext, device, gateway and radio metadata to the application is decided on the real code (engines uplink, phyenc, pipeseq with the reference observer).",
+        "note": "partial: acceptance by the decoder of every device-built frame is a hypothesis of C02_accept_and_recover, discharged by differential runs, not by a theorem; AES itself is a parameter",
+        "technique": "Lean 4 proof (model = spec for cipher, MIC and layout; spec round trip; composition) + differential correspondence against the Lean device",
     },
     "C03": {
         "level": "Lean theorems for EVERY event list of the pipeline transition system (all interleavings of handler/scheduler/sendAt/encoder steps at storage-operation granularity, any number of frames, devices and gateways, injected faults, crashes): no (device, FCnt) of a running counter epoch is written to the inbox twice for a strict-counter device, and every recorded one went through a successful conditional counter update (C03_recorded_once: thread-pool invariant 'every counter in circulation - carried by a handler between the counter step and the inbox insert, or already recorded - was accepted, at most once', Proofs/Circ.lean); the counters accepted for a device strictly increase within a session and stay below the stored one (C03_accepted_strictly_increasing, C03_accepted_below_stored), so a copy or an older counter can never move the counter again (C03_no_second_acceptance). Tied by regenerated facts (handler call order and error dispositions, SQL text of the conditional update) and by trace validation of the real goroutines under controlled schedules (copies, uplink vs encoder), plus sequential histories judged by a reference observer.",
